@@ -459,4 +459,109 @@ example (cfg : Cfg) : ∃ frs : List (List Nat), frs.length = 3 ∧
     obtain ⟨m, fr, _, _, _, _, _, nt, hd, _⟩ := h3.of_mem_right f hf
     exact ⟨_, nt, hd⟩
 
+/-! ## 5. Idle bytes between frames -/
+
+/-- **A prefix without the preamble value is skipped.** If no byte of `g` is 0xD3, one scanner call on
+`g ++ rest` does what it does on `rest` alone, with `g.length` more bytes consumed. -/
+theorem scan_skips_dead_prefix (g : List UInt8) (hg : ∀ b ∈ g, b ≠ 0xd3) (rest : List UInt8) :
+    scan (g ++ rest) = ((scan rest).1 + g.length, (scan rest).2) := by
+  induction g with
+  | nil => simp
+  | cons b g ih =>
+    have hb : b ≠ 0xd3 := hg b (List.mem_cons_self ..)
+    have ih' := ih (fun c hc => hg c (List.mem_cons_of_mem _ hc))
+    rw [List.cons_append]
+    conv => lhs; unfold scan
+    simp only [hb, ↓reduceIte, ih', List.length_cons, Nat.add_assoc]
+
+/-- One scanner call on idle bytes, an exact frame, then anything: that frame; consumed = gap + frame. -/
+theorem scan_gap_exact (g bs : List UInt8) (f : Frame) (hg : ∀ b ∈ g, b ≠ 0xd3)
+    (h : ExactFrame bs f) (rest : List UInt8) :
+    scan (g ++ (bs ++ rest)) = (bs.length + g.length, some f) := by
+  rw [scan_skips_dead_prefix g hg, scan_exact bs f h rest]
+
+/-- One round of the caller protocol on idle bytes, an exact frame, then anything. -/
+theorem drainAll_gap_exact_cons (g bs : List UInt8) (f : Frame) (hg : ∀ b ∈ g, b ≠ 0xd3)
+    (h : ExactFrame bs f) (rest : List UInt8) :
+    drainAll (g ++ (bs ++ rest)) = (f :: (drainAll rest).1, (drainAll rest).2) := by
+  rw [drainAll_unfold, scan_gap_exact g bs f hg h rest]
+  have hd : (g ++ (bs ++ rest)).drop (bs.length + g.length) = rest := by
+    rw [Nat.add_comm, ← List.drop_drop, List.drop_left, List.drop_left]
+  simp only [hd]
+
+/-- Idle bytes alone: nothing is delivered and nothing is kept. -/
+theorem drainAll_dead (g : List UInt8) (hg : ∀ b ∈ g, b ≠ 0xd3) : drainAll g = ([], []) := by
+  have hs := scan_skips_dead_prefix g hg []
+  rw [List.append_nil] at hs
+  rw [drainAll_unfold, hs]
+  have : (scan ([] : List UInt8)) = (0, none) := rfl
+  simp [this]
+
+/-- **Idle bytes between frames are skipped and every frame is still delivered, in order.** Each
+element of `ps` is (gap, frame bytes, frame): the gap is any byte string without the preamble value
+0xD3 (it may be empty), the frame bytes are an exact frame. The caller protocol on
+gap₁ ++ frame₁ ++ gap₂ ++ frame₂ ++ … ++ tail delivers frame₁, frame₂, … and then goes on with the tail
+exactly as if gaps and frames had not been there. -/
+theorem drain_frames_with_gaps (ps : List (List UInt8 × List UInt8 × Frame))
+    (hg : ∀ p ∈ ps, ∀ b ∈ p.1, b ≠ 0xd3) (h : ∀ p ∈ ps, ExactFrame p.2.1 p.2.2)
+    (tail : List UInt8) :
+    drainAll ((ps.map fun p => p.1 ++ p.2.1).flatten ++ tail)
+      = (ps.map (·.2.2) ++ (drainAll tail).1, (drainAll tail).2) := by
+  induction ps with
+  | nil => simp
+  | cons p ps ih =>
+    have hgp := hg p (List.mem_cons_self ..)
+    have hp : ExactFrame p.2.1 p.2.2 := h p (List.mem_cons_self ..)
+    have ih' := ih (fun q hq => hg q (List.mem_cons_of_mem _ hq))
+      (fun q hq => h q (List.mem_cons_of_mem _ hq))
+    simp only [List.map_cons, List.flatten_cons, List.append_assoc, List.cons_append]
+    rw [drainAll_gap_exact_cons p.1 p.2.1 p.2.2 hgp hp, ih']
+
+/-- Corollary: the stream may also end in idle bytes; then everything is consumed. -/
+theorem drain_frames_with_gaps_all (ps : List (List UInt8 × List UInt8 × Frame))
+    (hg : ∀ p ∈ ps, ∀ b ∈ p.1, b ≠ 0xd3) (h : ∀ p ∈ ps, ExactFrame p.2.1 p.2.2)
+    (last : List UInt8) (hlast : ∀ b ∈ last, b ≠ 0xd3) :
+    drainAll ((ps.map fun p => p.1 ++ p.2.1).flatten ++ last) = (ps.map (·.2.2), []) := by
+  rw [drain_frames_with_gaps ps hg h last, drainAll_dead last hlast, List.append_nil]
+
+/-- The same for every chunking of the stream (cuts inside gaps, headers, payloads, checksums; empty
+chunks): the frames, then what the tail alone delivers; the buffer keeps what the tail alone keeps. -/
+theorem feed_frames_with_gaps (ps : List (List UInt8 × List UInt8 × Frame))
+    (hg : ∀ p ∈ ps, ∀ b ∈ p.1, b ≠ 0xd3) (h : ∀ p ∈ ps, ExactFrame p.2.1 p.2.2)
+    (tail : List UInt8) (chunks : List (List UInt8))
+    (hc : chunks.flatten = (ps.map fun p => p.1 ++ p.2.1).flatten ++ tail) :
+    (feedAll chunks).delivered = ps.map (·.2.2) ++ (drainAll tail).1 ∧
+      (feedAll chunks).buf = (drainAll tail).2 := by
+  obtain ⟨h1, h2, _⟩ := C06.feedAll_eq chunks
+  rw [hc, drain_frames_with_gaps ps hg h tail] at h1 h2
+  exact ⟨h1, h2⟩
+
+/-- Non-vacuity: idle bytes, a frame whose payload holds 0xD3, an empty gap's neighbour with more idle
+bytes, a second frame with non-zero reserved bits, trailing idle bytes; cut into chunks inside a gap,
+a header and a checksum. Both frames are delivered, nothing is kept. -/
+example :
+    let p1 : List UInt8 := [0xd3, 0x00, 0xd3]
+    let p2 : List UInt8 := [0x3e, 0xd0, 0xd3]
+    let ps : List (List UInt8 × List UInt8 × Frame) :=
+      [([0x00, 0xff, 0x12], mkFrame 0 p1, mkFrameResult 0 p1),
+       ([0x55], mkFrame 5 p2, mkFrameResult 5 p2)]
+    let tail : List UInt8 := [0x0d, 0x0a]
+    let s := (ps.map fun p => p.1 ++ p.2.1).flatten ++ tail
+    let chunks := [s.take 2, [], (s.drop 2).take 3, (s.drop 5).take 14, s.drop 19]
+    (∀ p ∈ ps, ∀ b ∈ p.1, b ≠ 0xd3) ∧ (∀ p ∈ ps, ExactFrame p.2.1 p.2.2) ∧ s.length = 24 ∧
+      drainAll s = (ps.map (·.2.2), []) ∧
+      chunks.flatten = s ∧ (feedAll chunks).delivered = ps.map (·.2.2) ∧ (feedAll chunks).buf = [] := by
+  intro p1 p2 ps tail s chunks
+  have hg : ∀ p ∈ ps, ∀ b ∈ p.1, b ≠ 0xd3 := by decide
+  have hex : ∀ p ∈ ps, ExactFrame p.2.1 p.2.2 := by
+    intro p hp
+    simp only [ps, List.mem_cons, List.not_mem_nil, or_false] at hp
+    rcases hp with rfl | rfl <;> exact exactFrame_mkFrame _ _ (by decide)
+  have htail : ∀ b ∈ tail, b ≠ 0xd3 := by decide
+  have hc : chunks.flatten = s := by decide +kernel
+  have hd := drain_frames_with_gaps_all ps hg hex tail htail
+  obtain ⟨f1, f2⟩ := feed_frames_with_gaps ps hg hex tail chunks hc
+  rw [drainAll_dead tail htail] at f1 f2
+  exact ⟨hg, hex, by decide +kernel, hd, hc, by simpa using f1, f2⟩
+
 end Rtcm.Sys
